@@ -259,4 +259,91 @@ theorem threadMesh_radii (dMin dMaj pitch length : ℝ) (segments : Nat) (li lo 
     exact hp
 
 
+/-! ### the helix -/
+/-- the root-line vertex (profile point `tp2`) written by step `j`: on the minor radius, turned by
+`±(j+1)·360/segments` degrees and lifted by `j·zStep` -/
+noncomputable def rootPoint (dMin : ℝ) (segments : Nat) (left : Bool) (zStep : ℝ) (j : Nat) : Pt3 ℝ :=
+  let a0 : ℝ := (lit 360 : ℝ) / cast segments * cast (j + 1)
+  let a := if left then a0 * (-1) else a0
+  ⟨dcos a * (dMin / lit 2), dsin a * (dMin / lit 2), zStep * cast j + 0⟩
+
+/-- helix invariant: after `k` steps, for every `j < k` the point with index `4(j+1)+2` is `rootPoint j` -/
+def HInv (dMin : ℝ) (segments : Nat) (left : Bool) (zStep : ℝ) (k : Nat) (st : St ℝ) : Prop :=
+  st.points.length = 4 + 4 * k ∧ ∀ j, j < k → st.points[4 * (j + 1) + 2]? = some (rootPoint dMin segments left zStep j)
+
+theorem hinv_step (dMin : ℝ) (segments : Nat) (left : Bool) (zStep : ℝ) (k : Nat) (st st' : St ℝ)
+    (h : HInv dMin segments left zStep k st) (p0 p1 p3 : Pt3 ℝ)
+    (hp : st'.points = st.points ++ ring4
+      (dcos (if left then (lit 360 : ℝ) / cast segments * cast (k + 1) * (-1) else (lit 360 : ℝ) / cast segments * cast (k + 1)))
+      (dsin (if left then (lit 360 : ℝ) / cast segments * cast (k + 1) * (-1) else (lit 360 : ℝ) / cast segments * cast (k + 1)))
+      (zStep * cast k) p0 p1 ⟨dMin / lit 2, 0, 0⟩ p3) :
+    HInv dMin segments left zStep (k + 1) st' := by
+  obtain ⟨h1, h2⟩ := h
+  refine ⟨by rw [hp, List.length_append, h1]; simp [ring4]; omega, ?_⟩
+  intro j hj
+  rw [hp]
+  by_cases hjk : j < k
+  · rw [List.getElem?_append_left (by omega)]; exact h2 j hjk
+  · have : j = k := by omega
+    subst this
+    rw [List.getElem?_append_right (by omega)]
+    have e : 4 * (j + 1) + 2 - st.points.length = 2 := by omega
+    rw [e]
+    simp [ring4, rootPoint]
+
+
+/-- **the thread is a helix of the right hand**: the root-line vertex written by step `j` sits at angle
+`+(j+1)·360/segments` degrees for a right-hand thread and `−(j+1)·360/segments` for a left-hand one, at
+height `j · zStep`, where `zStep = threadLength / nSteps`: the thread turns counter-clockwise going up
+when right-handed, clockwise when left-handed, by one step angle per `zStep` of height -/
+theorem threadMesh_helix (dMin dMaj pitch length : ℝ) (segments : Nat) (li lo : ℝ) (left : Bool) (m : Mesh ℝ)
+    (h : threadMesh dMin dMaj pitch length segments li lo left = some m) :
+    ∃ nSteps, 2 ≤ nSteps ∧
+      nSteps = HasTrunc.trunc ((length - lit 7 / lit 10 * pitch) / pitch * (cast segments : ℝ)) ∧
+      ∀ j, j < nSteps - 1 → m.points[4 * (j + 1) + 2]? =
+        some (rootPoint dMin segments left ((length - lit 7 / lit 10 * pitch) / (cast nSteps : ℝ)) j) := by
+  unfold threadMesh at h
+  simp only [] at h
+  split at h
+  · simp at h
+  · rename_i hcond
+    injection h with h
+    generalize hst : List.foldl _ _ (List.range _) = st at h
+    generalize hn : HasTrunc.trunc ((length - lit 7 / lit 10 * pitch) / pitch * cast segments) = nSteps at *
+    have hn2 : 2 ≤ nSteps := by
+      simp only [Bool.or_eq_true, decide_eq_true_eq, not_or, not_lt] at hcond
+      exact hcond.1
+    have hinv : HInv dMin segments left ((length - lit 7 / lit 10 * pitch) / (cast nSteps : ℝ)) (nSteps - 1) st := by
+      rw [← hst]
+      apply foldl_range_inv (HInv dMin segments left ((length - lit 7 / lit 10 * pitch) / (cast nSteps : ℝ)))
+      · exact ⟨rfl, fun j hj => by omega⟩
+      · intro k s hk hi
+        split
+        · exact hinv_step _ _ _ _ k s _ hi _ _ _ rfl
+        · split
+          · exact hinv_step _ _ _ _ k s _ hi _ _ _ rfl
+          · exact hinv_step _ _ _ _ k s _ hi _ _ _ rfl
+    subst h
+    exact ⟨nSteps, hn2, rfl, hinv.2⟩
+
+/-- one revolution (`segments` steps) lifts the thread by one pitch, up to the rounding of the step
+count: `pitch ≤ segments · zStep < pitch · (1 + 1/nSteps)` -/
+theorem pitch_per_turn (pitch threadLength : ℝ) (segments : Nat) (hp : 0 < pitch) (hs : 0 < segments)
+    (nSteps : Nat) (hn : nSteps = ⌊threadLength / pitch * (segments : ℝ)⌋₊) (hpos : 1 ≤ nSteps) :
+    pitch ≤ (segments : ℝ) * (threadLength / (nSteps : ℝ)) ∧
+      (segments : ℝ) * (threadLength / (nSteps : ℝ)) * (nSteps : ℝ) < pitch * ((nSteps : ℝ) + 1) := by
+  have hN : (0 : ℝ) < nSteps := by exact_mod_cast hpos
+  set x : ℝ := threadLength / pitch * (segments : ℝ) with hx
+  have hx0 : 0 ≤ x := by
+    by_contra hneg
+    have : ⌊x⌋₊ = 0 := Nat.floor_of_nonpos (le_of_lt (not_le.mp hneg))
+    omega
+  have hfl : (nSteps : ℝ) ≤ x := by rw [hn]; exact Nat.floor_le hx0
+  have hfu : x < (nSteps : ℝ) + 1 := by rw [hn]; exact Nat.lt_floor_add_one x
+  have hxp : (segments : ℝ) * threadLength = pitch * x := by rw [hx]; field_simp
+  constructor
+  · rw [mul_div_assoc', le_div_iff₀ hN, hxp]; nlinarith
+  · rw [mul_div_assoc', div_mul_cancel₀ _ (ne_of_gt hN), hxp]; nlinarith
+
+
 end ScadVerif.ThreadLemmas
